@@ -121,9 +121,12 @@ type fakeSMTP struct {
 	ln   net.Listener
 	mu   sync.Mutex
 	msgs []string
+	envs []string // envelope recipients of msgs[i], comma-joined
 	jit  func()
 	// stall: a relay that is slow for one recipient — the dialogue of a message to stallRcpt is held after
 	// RCPT until release is closed; stalled is closed when that happens
+	failRcpt  string // RCPT for this address is answered 451: the delivery fails after the message was built
+	failed    int
 	stallRcpt string
 	stalled   chan struct{}
 	release   chan struct{}
@@ -153,6 +156,7 @@ func (f *fakeSMTP) serve(c net.Conn) {
 	f.jit()
 	r := bufio.NewReader(c)
 	fmt.Fprintf(c, "220 fake ESMTP\r\n")
+	var envelope []string // accepted RCPT TO addresses of the transaction in progress
 	for {
 		line, err := r.ReadString('\n')
 		if err != nil {
@@ -163,9 +167,19 @@ func (f *fakeSMTP) serve(c net.Conn) {
 		case strings.HasPrefix(cmd, "EHLO"), strings.HasPrefix(cmd, "HELO"):
 			fmt.Fprintf(c, "250 fake\r\n")
 		case strings.HasPrefix(cmd, "MAIL"), strings.HasPrefix(cmd, "RCPT"):
+			if f.failRcpt != "" && strings.HasPrefix(cmd, "RCPT") && strings.Contains(cmd, strings.ToUpper(f.failRcpt)) {
+				f.mu.Lock()
+				f.failed++
+				f.mu.Unlock()
+				fmt.Fprintf(c, "451 mailbox busy, try again later\r\n")
+				continue
+			}
 			if f.stallRcpt != "" && strings.HasPrefix(cmd, "RCPT") && strings.Contains(cmd, strings.ToUpper(f.stallRcpt)) {
 				f.stallOnce.Do(func() { close(f.stalled) })
 				<-f.release
+			}
+			if strings.HasPrefix(cmd, "RCPT") {
+				envelope = append(envelope, strings.ToLower(strings.Trim(strings.TrimSpace(line[strings.IndexByte(line, ':')+1:]), "<>")))
 			}
 			fmt.Fprintf(c, "250 ok\r\n")
 		case cmd == "DATA":
@@ -183,7 +197,9 @@ func (f *fakeSMTP) serve(c net.Conn) {
 			}
 			f.mu.Lock()
 			f.msgs = append(f.msgs, sb.String())
+			f.envs = append(f.envs, strings.Join(envelope, ","))
 			f.mu.Unlock()
+			envelope = nil
 			fmt.Fprintf(c, "250 queued\r\n")
 		case cmd == "QUIT":
 			fmt.Fprintf(c, "221 bye\r\n")
@@ -917,7 +933,49 @@ func smtpStallProbe(seed int64) (verdict string, detail string) {
 	return "inconclusive", "the second client's mail neither arrived nor was its sender found waiting for a lock"
 }
 
+// blankRecipientProbe: an account without an e-mail address (a username site; the address is a profile
+// field that may be empty) asks for a recovery mail on the concurrent instance, whose mail goroutines run.
+// Whatever the library makes of it, the process — everybody else's server — survives; the other client's
+// request issued right afterwards is answered. (A crash is detected by the parent from the worker's output.)
+func blankRecipientProbe(seed int64) (string, string) {
+	srv, err := newC20Server(seed, false, false, false)
+	if err != nil {
+		return "inconclusive", err.Error()
+	}
+	defer srv.close()
+	srv.store.Put(&world.User{PID: "nomail@site.test", Email: "", Password: sim.Hash4("N0mail!passw"), Confirmed: true})
+	srv.store.Put(&world.User{PID: "mail@site.test", Email: "mail@site.test", Password: sim.Hash4("N0mail!passw"), Confirmed: true})
+	post := func(pid string) int {
+		hc := &http.Client{CheckRedirect: func(*http.Request, []*http.Request) error { return http.ErrUseLastResponse }, Timeout: 30 * time.Second}
+		req, _ := http.NewRequest("POST", srv.srv.URL+"/auth/recover", strings.NewReader(url.Values{"email": {pid}}.Encode()))
+		req.Header.Set("Content-Type", "application/x-www-form-urlencoded")
+		resp, err := hc.Do(req)
+		if err != nil {
+			return 0
+		}
+		io.Copy(io.Discard, resp.Body)
+		resp.Body.Close()
+		return resp.StatusCode
+	}
+	for i := 0; i < 3; i++ {
+		post("nomail@site.test")
+		time.Sleep(30 * time.Millisecond) // the mail goroutine of that request gets to run
+		if st := post("mail@site.test"); st == 0 {
+			return "inconclusive", "the server stopped answering after a recovery request of an account without an address"
+		}
+	}
+	return "held", ""
+}
+
 func c20Unit(c *RunCtx, unit int) {
+	if unit%6 == 3 {
+		if v, d := blankRecipientProbe(c.Seed*1000 + int64(unit)); v == "held" {
+			c.Stats.Count("blank-recipient-probes-held")
+		} else {
+			c.Stats.Inconclusive = append(c.Stats.Inconclusive, "blank recipient probe: "+d)
+			return
+		}
+	}
 	if unit%6 == 1 {
 		switch v, d := smtpStallProbe(c.Seed*1000 + int64(unit)); v {
 		case "violated":
@@ -1152,11 +1210,11 @@ func C20RaceReports(scratch string) (lib []string, harnessOnly int, total int) {
 func init() {
 	register(&Check{
 		ID: "C20", Level: "exploration",
-		Rule:  "-race build. One initialised instance behind a real net/http server on loopback, shipped defaults everywhere (router, body reader, responder, redirector, error handler, defaults.Logger on a locked writer, defaults.LogMailer on a locked writer in even units and defaults.SMTPMailer talking to an in-process fake SMTP server in odd units), MailNoGoroutine=false so the library's own mail goroutines run. A Localizer that translates every text into the language the request asks for (Accept-Language → request context; three languages spread over the clients; the marker of a client's own language is canonicalised, any other language's marker is a difference); the subject of every mail a client waits for is part of its transcript. 4/16/48 clients, each with its own account and cookie jar, run the script register → login-unconfirmed → confirm (token read from the mail) → wrong login → login(rm) → protected → TOTP setup + 4x QR image (pixels must encode this session's own secret) → otp add → logout → otp login → otp replay → logout → recover start → recover end (token from the mail) → old password → new password(rm) → remember re-auth → protected → logout → protected, concurrently (form mode in half of the units, JSON/API mode — JSON bodies in, JSON 'redirects' out — in the other half), with seeded yields/µs-sleeps injected at every storer and session-store operation and at SMTP accept. Oracles: (1) zero race-detector reports with a frame in github.com/volatiletech/authboss/v3 (GORACE halt_on_error=0 log_path, blocks counted from the logs, deduplicated by the innermost library frame pair); a report without a library frame makes the run inconclusive; (2) every client's transcript (status, Location, content type, body, its server-side session, jar keys, its token-row count, its own storage row after every step; identifiers/tokens/hashes/timestamps canonicalised) equals the transcript of the same script run alone against a fresh instance; (3) 8 anonymous clients x 120 requests refused concurrently by ONE redirect-mode access middleware must each be sent to the login page with their own path and query; (4) the C11 handler programs run in 8 goroutines concurrently; (5) 8 cookie-only browsers rotate their remember cookies 60 (thorough: 400) times each at once: every cookie names its own account, every nonce is handed out once; (6) the library logs no error under concurrency that it does not log when the script runs alone; (7) in the LogMailer's output the writes of each Mailer.Send call are contiguous (two users' messages never mix); (8) SMTP stall probe (every 6th unit): the relay holds the dialogue of one client's mail; a second client's recovery mail must reach the relay meanwhile — violated when 25 consecutive goroutine dumps show a sender waiting in sync.(*Mutex).Lock below SMTPMailer.Send while another sits in net/smtp below the same function (stack evidence, not a deadline); anything else is inconclusive. distinct_nontrivial = distinct interleaving signatures (hash of the global order of storer operations by account).",
+		Rule:  "-race build. One initialised instance behind a real net/http server on loopback, shipped defaults everywhere (router, body reader, responder, redirector, error handler, defaults.Logger on a locked writer, defaults.LogMailer on a locked writer in even units and defaults.SMTPMailer talking to an in-process fake SMTP server in odd units), MailNoGoroutine=false so the library's own mail goroutines run. A Localizer that translates every text into the language the request asks for (Accept-Language → request context; three languages spread over the clients; the marker of a client's own language is canonicalised, any other language's marker is a difference); the subject of every mail a client waits for is part of its transcript. 4/16/48 clients, each with its own account and cookie jar, run the script register → login-unconfirmed → confirm (token read from the mail) → wrong login → login(rm) → protected → TOTP setup + 4x QR image (pixels must encode this session's own secret) → otp add → logout → otp login → otp replay → logout → recover start → recover end (token from the mail) → old password → new password(rm) → remember re-auth → protected → logout → protected, concurrently (form mode in half of the units, JSON/API mode — JSON bodies in, JSON 'redirects' out — in the other half), with seeded yields/µs-sleeps injected at every storer and session-store operation and at SMTP accept. Oracles: (1) zero race-detector reports with a frame in github.com/volatiletech/authboss/v3 (GORACE halt_on_error=0 log_path, blocks counted from the logs, deduplicated by the innermost library frame pair); a report without a library frame makes the run inconclusive; (2) every client's transcript (status, Location, content type, body, its server-side session, jar keys, its token-row count, its own storage row after every step; identifiers/tokens/hashes/timestamps canonicalised) equals the transcript of the same script run alone against a fresh instance; (3) 8 anonymous clients x 120 requests refused concurrently by ONE redirect-mode access middleware must each be sent to the login page with their own path and query; (4) the C11 handler programs run in 8 goroutines concurrently; (5) 8 cookie-only browsers rotate their remember cookies 60 (thorough: 400) times each at once: every cookie names its own account, every nonce is handed out once; (6) the library logs no error under concurrency that it does not log when the script runs alone; (7) in the LogMailer's output the writes of each Mailer.Send call are contiguous (two users' messages never mix); (8) SMTP stall probe (every 6th unit): the relay holds the dialogue of one client's mail; a second client's recovery mail must reach the relay meanwhile — violated when 25 consecutive goroutine dumps show a sender waiting in sync.(*Mutex).Lock below SMTPMailer.Send while another sits in net/smtp below the same function (stack evidence, not a deadline); anything else is inconclusive. (9) every 6th unit an account without an e-mail address asks for a recovery mail (mail goroutines on): the process survives — a worker that dies of a panic whose innermost non-runtime frame is library code is a violation, classified by the parent from the worker's output. distinct_nontrivial = distinct interleaving signatures (hash of the global order of storer operations by account).",
 		Units: func(t string) int { return tierN(t, 12, 120) },
 		Run:   c20Unit,
 		Floors: func(t string) map[string]int {
-			return map[string]int{"client-scripts": 60, "storer-ops": 3000, "account-switches-in-global-order": 500, "concurrent-client-state-programs": 5000, "concurrent-refusals": 5000, "smtp-stall-probes-held": 2}
+			return map[string]int{"client-scripts": 60, "storer-ops": 3000, "account-switches-in-global-order": 500, "concurrent-client-state-programs": 5000, "concurrent-refusals": 5000, "smtp-stall-probes-held": 2, "blank-recipient-probes-held": 2}
 		},
 		Assumptions: []string{"the race detector only sees accesses that actually happen in a run; schedules are those the Go scheduler plus injected yields produce", "bcrypt cost 4; no 2FA enrolment in the script (cost-10 x10 hashing under -race)"},
 	})
